@@ -97,6 +97,8 @@ def payoff_band(token, kind, contracts, strike, underlying, mark):
     rel = diff / S
     if out["deliver"] != "must" or net < 3 * max(fee, q):
         out["money"] = "thin"
+    elif rel > 1:
+        out["money"] = "itm-over-one-coin"
     elif rel > Fraction(5, 100):
         out["money"] = "deep-itm"
     else:
